@@ -580,6 +580,15 @@ class Emitter:
         # typed allocation: the type an allocation result is first cast to (CBMC is an order of
         # magnitude faster on typed dynamic objects than on byte arrays accessed through casts)
         self.first_cast = {}
+        # opt-in (spec key 'ptrdiff'): `sub (ptrtoint a), (ptrtoint b)` is emitted as a C pointer difference, which
+        # CBMC's simplifier folds to a constant for same-object pointers (it does not fold (A+8)-(A+8) on the integer casts)
+        self.ptrtoint_src = {}
+        if self.opts.get('ptrdiff'):
+            for b in f.blocks:
+                for ins in b.instrs:
+                    if ins.op == 'cast' and ins.cop == 'ptrtoint' and ins.res is not None and ins.ty.kind == 'int' \
+                            and ins.ty.bits == 64:
+                        self.ptrtoint_src[ins.res] = ins.a
         if self.opts.get('typed_alloc', True):
             for b in f.blocks:
                 for ins in b.instrs:
@@ -598,6 +607,22 @@ class Emitter:
                             gt = self.mod.globals[ins.ptr.args[0].name].ty
                             if gt.kind == 'ptr':
                                 self.first_cast[ins.v.name] = gt.to
+        if self.opts.get('typed_alloc', True) and 'VF_TYPED_STORE_SLOT' in (self.opts.get('rt_defs') or {}):
+            # opt-in (rt_defs VF_TYPED_STORE_SLOT): an i8* allocation result that is never cast, only stored
+            # through `bitcast T** %slot to i8**` (ConcurrentObjectArena::allocateBuffer files the fresh buffer
+            # in its table that way): type it from the slot
+            bc = {}
+            for b in f.blocks:
+                for ins in b.instrs:
+                    if ins.op == 'cast' and ins.cop == 'bitcast' and ins.res is not None and \
+                            getattr(ins.a, 'ty', None) is not None and ins.a.ty.kind == 'ptr' and \
+                            ins.a.ty.to.kind == 'ptr':
+                        bc[ins.res] = ins.a.ty.to.to
+            for b in f.blocks:
+                for ins in b.instrs:
+                    if ins.op == 'store' and isinstance(ins.v, Local) and ins.v.name not in self.first_cast \
+                            and isinstance(ins.ptr, Local) and ins.ptr.name in bc:
+                        self.first_cast[ins.v.name] = bc[ins.ptr.name]
         if root_k is None:
             w(self.proto(f) + ' {')
             for d in decls:
@@ -862,6 +887,10 @@ class Emitter:
                 raise Unsupported('i1 op ' + o)
             return '((_Bool)((%s %s %s) & 1))' % (a, c, b)
         W = self.ity(max(bits, 32) if bits <= 64 else bits) if bits in STD_BITS else T
+        if o == 'sub' and bits == 64 and getattr(self, 'ptrtoint_src', None) and isinstance(ins.a, Local) \
+                and isinstance(ins.b, Local) and ins.a.name in self.ptrtoint_src and ins.b.name in self.ptrtoint_src:
+            return '((uint64_t)(int64_t)((uint8_t*)%s - (uint8_t*)%s))' % (
+                self.val(self.ptrtoint_src[ins.a.name]), self.val(self.ptrtoint_src[ins.b.name]))
         if o in ('add', 'sub', 'mul', 'and', 'or', 'xor'):
             c = {'add': '+', 'sub': '-', 'mul': '*', 'and': '&', 'or': '|', 'xor': '^'}[o]
             return '((%s)((%s)%s %s (%s)%s))' % (T, W, a, c, W, b)
